@@ -274,7 +274,8 @@ class Ctx:
         self.solver = z3.Solver()
         self.solver.set('timeout', engine.feas_timeout_ms)
         for ax in engine.global_axioms:
-            self.solver.add(ax)
+            if not _has_quantifier(ax):
+                self.solver.add(ax)
         self.counter = itertools.count()
         self.obligations = []
         self.state = {}        # free-form per-path state (grad mode, ghost logs, heap ...)
@@ -301,7 +302,10 @@ class Ctx:
     def assume(self, f):
         f = b2z(f)
         self.pc.append(f)
-        self.solver.add(f)
+        # path feasibility is decided on the quantifier-free part of the path condition only (an over-approximation:
+        # a spuriously feasible path merely produces obligations with inconsistent hypotheses)
+        if not _has_quantifier(f):
+            self.solver.add(f)
 
     def feasible(self, extra=None):
         self.solver.push()
@@ -474,6 +478,7 @@ class Engine:
         self.algebraic = {}
         self.hooks = {}           # misc extension points: 'getattr', 'setattr', 'binop', 'call', 'truthy', 'pow'
         self.max_depth = 40
+        self._ob_cache = {}
         self.finite_scope = None   # dict(K=..., funs=[(f, body)...]) enables the exact finite-scope refuter for heap VCs
         self.verifying = None
         self.dropped = {'docstrings': 0, 'warnings.warn': 0, 'fstrings': 0}
@@ -482,6 +487,15 @@ class Engine:
 
     # ------------------------------------------------------------ discharge
     def discharge(self, ob):
+        # obligations re-generated on re-executed path prefixes are identical (hash-consed ASTs): reuse the verdict
+        key = (ob.goal.get_id(), tuple(h.get_id() for h in ob.hyps))
+        hit = self._ob_cache.get(key)
+        if hit is not None:
+            ob.status, ob.backend, ob.model, ob.note = hit[0].status, hit[0].backend, hit[0].model, hit[0].note
+            ob.seconds = 0.0
+            self.all_obligations.append(ob)
+            return
+        self._ob_cache[key] = (ob, ob.goal, list(ob.hyps))   # keeps the ASTs alive so that ids stay unique
         t0 = time.time()
         r = None
         s = None
@@ -514,7 +528,10 @@ class Engine:
             self._second_opinion(ob, s)
             if ob.status == 'unknown' and self.finite_scope:
                 from . import finite_scope
-                finite_scope.refute(self, ob)
+                for cfg in (self.finite_scope if isinstance(self.finite_scope, list) else [self.finite_scope]):
+                    finite_scope.refute(self, ob, cfg)
+                    if ob.status != 'unknown':
+                        break
         ob.seconds = time.time() - t0
         self.solver_seconds += ob.seconds
         self.all_obligations.append(ob)
